@@ -471,3 +471,89 @@ Proof.
   unfold enc_spec, pad4z. cbn [app]. unfold bundle_p, bundle_magic. cbn [strcmp_eq app].
   replace (a0 =? 35) with false by (symmetry; apply Z.eqb_neq; assumption). reflexivity.
 Qed.
+
+(* ---- subtree_serialize (src/cpp/subtree-serialize.cpp) ------------------- *)
+Lemma append_all_zero : forall msgs buf, append_all buf 0 msgs = Ok (0, buf).
+Proof.
+  induction msgs as [|m r IH]; intros buf; cbn [append_all]; [reflexivity|].
+  unfold append_bundle. change (0 =? 0) with true. rewrite orb_true_r. cbn [orb bind fst snd]. apply IH.
+Qed.
+
+(* appending onto a prefix P that is followed by zeros: everything fits ->
+   the slots are laid down behind P; otherwise 0 is returned; the buffer never
+   changes its length (no write outside) *)
+Lemma append_all_spec : forall msgs P k,
+  Forall (fun m => 0 < zlen m < 4294967296) msgs -> 0 < zlen P -> 0 <= k ->
+  exists b', append_all (P ++ zeros k) (zlen P) msgs =
+             Ok ((if k <? zlen (body msgs) then 0 else zlen P + zlen (body msgs)), b') /\
+             zlen b' = zlen P + k /\
+             (zlen (body msgs) <= k -> b' = P ++ body msgs ++ zeros (k - zlen (body msgs))).
+Proof.
+  induction msgs as [|m r IH]; intros P k Hm HP Hk.
+  - cbn [append_all]. change (zlen (body [])) with 0.
+    replace (k <? 0) with false by (symmetry; apply Z.ltb_ge; lia).
+    eexists. split; [rewrite Z.add_0_r; reflexivity|]. split; [rewrite zlen_app, zlen_zeros by lia; reflexivity|].
+    intros _. cbn [app]. rewrite Z.sub_0_r. reflexivity.
+  - inversion Hm as [|? ? Hm1 Hmr]; subst. cbn [append_all]. unfold append_bundle.
+    rewrite zlen_app, zlen_zeros by lia. rewrite zlen_body_cons.
+    pose proof (zlen_body_nonneg r) as Hb.
+    replace (zlen P =? 0) with false by (symmetry; apply Z.eqb_neq; lia).
+    replace (zlen m =? 0) with false by (symmetry; apply Z.eqb_neq; lia). rewrite !orb_false_r.
+    destruct (zlen P + k <? zlen P + zlen m + 4) eqn:E.
+    + apply Z.ltb_lt in E. cbn [bind fst snd]. rewrite append_all_zero.
+      replace (k <? 4 + zlen m + zlen (body r)) with true by (symmetry; apply Z.ltb_lt; lia).
+      eexists. split; [reflexivity|]. split; [rewrite zlen_app, zlen_zeros by lia; reflexivity|]. intros; lia.
+    + apply Z.ltb_ge in E.
+      replace (Z.to_nat (zlen P)) with (length P) by (unfold zlen; lia).
+      rewrite skipn_zlen_app, firstn_zlen_app.
+      replace (zeros k) with (zeros (zlen (chunk_bytes [Wr (be32 (zlen m)); Wr m])) ++ zeros (k - 4 - zlen m)).
+      2:{ cbn [chunk_bytes]. rewrite app_nil_r, zlen_app, zlen_be32. rewrite <- zeros_add by lia. f_equal. lia. }
+      rewrite apply_chunks_zeroed by exact I. cbn [bind fst snd chunk_bytes]. rewrite app_nil_r.
+      set (P' := P ++ be32 (zlen m) ++ m).
+      assert (HP' : zlen P' = zlen P + zlen m + 4) by (unfold P'; rewrite !zlen_app, zlen_be32; lia).
+      replace (P ++ (be32 (zlen m) ++ m) ++ zeros (k - 4 - zlen m)) with (P' ++ zeros (k - 4 - zlen m))
+        by (unfold P'; rewrite <- !app_assoc; reflexivity).
+      rewrite <- HP'.
+      destruct (IH P' (k - 4 - zlen m) Hmr ltac:(lia) ltac:(lia)) as (b' & Hrun & Hlen & Hfit).
+      rewrite Hrun. exists b'. split; [|split].
+      * f_equal. f_equal.
+        destruct (k - 4 - zlen m <? zlen (body r)) eqn:E2;
+          [apply Z.ltb_lt in E2; replace (k <? 4 + zlen m + zlen (body r)) with true by (symmetry; apply Z.ltb_lt; lia); reflexivity
+          |apply Z.ltb_ge in E2; replace (k <? 4 + zlen m + zlen (body r)) with false by (symmetry; apply Z.ltb_ge; lia); lia].
+      * lia.
+      * intros Hle. rewrite Hfit by lia. unfold P'. rewrite body_cons, <- !app_assoc. do 4 f_equal. f_equal. lia.
+Qed.
+
+(* subtree_serialize for every capacity: the bundle of the captured replies
+   when it fits (time tag 0xdeadbeef0a0b0c0d), 0 otherwise; never a write
+   outside the destination *)
+Theorem subtree_serialize_spec buf msgs :
+  Forall (fun m => 0 < zlen m < 4294967296) msgs ->
+  let B := bundle_magic ++ be64 SUBTREE_TT ++ body msgs in
+  exists b', subtree_serialize buf msgs = Ok ((if zlen buf <? zlen B then 0 else zlen B), b') /\
+             zlen b' = zlen buf /\
+             (zlen B <= zlen buf -> b' = B ++ zeros (zlen buf - zlen B)).
+Proof.
+  intros Hm B. unfold subtree_serialize.
+  pose proof (bundle_spec buf SUBTREE_TT [] [] (Forall_nil _) eq_refl) as Hb.
+  cbn [combine map] in Hb. rewrite Hb. clear Hb.
+  assert (HB0 : elem_bytes (Bun SUBTREE_TT []) = bundle_magic ++ be64 SUBTREE_TT) by (rewrite elem_bytes_bun; cbn [map]; change (body []) with (@nil byte); rewrite app_nil_r; reflexivity).
+  rewrite HB0. set (H0 := bundle_magic ++ be64 SUBTREE_TT).
+  assert (HH0 : zlen H0 = 16) by reflexivity.
+  assert (HBl : zlen B = 16 + zlen (body msgs)) by (unfold B; rewrite !zlen_app, zlen_be64; change (zlen bundle_magic) with 8; lia).
+  pose proof (zlen_body_nonneg msgs) as Hbn. pose proof (zlen_nonneg buf).
+  rewrite HH0. destruct (zlen buf <? 16) eqn:E16.
+  - apply Z.ltb_lt in E16. cbn [bind fst snd]. rewrite append_all_zero.
+    replace (zlen buf <? zlen B) with true by (symmetry; apply Z.ltb_lt; lia).
+    eexists. split; [reflexivity|]. split; [apply zlen_zeros; lia | intros; lia].
+  - apply Z.ltb_ge in E16. cbn [bind fst snd].
+    destruct (append_all_spec msgs H0 (zlen buf - 16) Hm ltac:(lia) ltac:(lia)) as (b' & Hrun & Hlen & Hfit).
+    rewrite HH0 in Hrun. rewrite Hrun. exists b'. split; [|split].
+    + f_equal. f_equal.
+      destruct (zlen buf - 16 <? zlen (body msgs)) eqn:E2;
+        [apply Z.ltb_lt in E2; replace (zlen buf <? zlen B) with true by (symmetry; apply Z.ltb_lt; lia); reflexivity
+        |apply Z.ltb_ge in E2; replace (zlen buf <? zlen B) with false by (symmetry; apply Z.ltb_ge; lia); lia].
+    + lia.
+    + intros Hle. rewrite Hfit by lia. replace (zlen buf - zlen B) with (zlen buf - 16 - zlen (body msgs)) by lia.
+      unfold B, H0. rewrite <- !app_assoc. reflexivity.
+Qed.
